@@ -12,10 +12,10 @@ T = {
          "Trusted: lib/vf/av1parse.py (self-test in setup). pic_type is judged in its weakest sound reading."),
  "C03": ("offline checker over the API boundary history + decoded tag order", "3/C03",
          "encdrv records every API call/return; the checker asserts exactly-once, submission order, pts/dts/p_app_private, EOS last and nothing after it, recon set, decoded count and order (pictures carry a tag decoded from libaom's output). N is enumerated around mini-GOP boundaries for hierarchical levels 0..5 x intra period x refresh type x overlays x look-ahead x pts sequences.",
-         "Bounded observation after EOS (5 further polls). Recon pictures are identified by display position (the library labels them 0..N-1)."),
+         "Bounded observation after EOS (5 further polls). Recon pictures are identified by display position (the library labels them 0..N-1). A decoded tag counts as evidence of order only where the picture renders it cleanly (order, not fidelity, is the property); unreadable tags are counted in the evidence."),
  "C04": ("repeated runs under seeded schedule perturbation (hook H1) + ThreadSanitizer", "3/C04",
          "Same (config,input) encoded under many perturbed schedules (yields/sleeps injected at every mutex/semaphore/condvar operation of the library); packets+metadata+recon hashes must be identical and the run must terminate; distinct interleavings actually observed are counted from the H3 trace; the same configurations run on a TSan build and every race report is keyed.",
-         "'Every interleaving' is sampled. TSan sees only the schedules that ran. Hang = watchdog twice + boundary log."),
+         "'Every interleaving' is sampled. TSan sees only the schedules that ran. Hang = watchdog twice + boundary log. An output difference is keyed with how many runs of the configuration deviate from its most frequent output: the known rare TPL nondeterminism (1-3 % of runs) is matched only while at most half of the runs deviate; a difference in most runs is reported under the plain key."),
  "C05": ("metamorphic equality across logical_processors / unpin / target_socket", "3/C05",
          "Each configuration is encoded with lp in {1,2,3,4,6,8,12,16,0} and pinning/socket variants; output hashes must equal the lp=1 run; differences are attributed only when both sides are reproducible.",
          "pic_based_rate_est=1 excluded (documented lp dependence). Host has one socket."),
@@ -31,7 +31,7 @@ T = {
          "Each stream is decoded with 2,3,4,8 (thorough up to 16) threads under perturbed schedules and must equal the single-thread pictures; teardown must return; ASan must be silent; TSan runs with per-address release/acquire annotations at the 77 hand-off sites so that only accesses the intended protocol does not order are reported; distinct hand-off interleavings are counted from the trace.",
          "'Any interleaving' is sampled (80 distinct hand-off orders in the quick tier). The hand-off itself being a C11 race is one known finding."),
  "C10": ("deterministic structured mutation fuzzing of svt_av1_dec_frame on the ASan+UBSan decoder build, regression corpus replay", "3/C10",
-         "One decoder session per input (init, frame(s), get_picture, teardown) on exact-size heap copies; quick = the committed corpus (134 seeds, 49 reproducers) + 20000 fresh mutants from an 18-strategy mutator seeded by VERIF_SEED (both framings, multi-call records, 16-bit pipeline); any ASan report, non-benign UBSan report, abort, or reproducible stall is a violation.",
+         "One decoder session per input (init, frame(s), get_picture, teardown) on exact-size heap copies; quick = the committed corpus (134 seeds, 49 reproducers) + 20000 fresh mutants from an 18-strategy mutator seeded by VERIF_SEED (both framings, multi-call records, 16-bit pipeline); any ASan report, non-benign UBSan report, abort, or reproducible stall is a violation. Single allocations are capped at 512 MB (allocator returns NULL) so that mutated headers declaring gigantic pictures are cheap and exercise the allocation-failure path instead of minutes of memset.",
          "Single-threaded decoder as the property states. A libFuzzer target exists for campaigns; the registered check uses the deterministic Python mutator."),
  "C11": ("full encodes on the ASan+UBSan build over a fixed list of extremes (thorough: plus random accepted configurations); reports keyed by site", "3/C11",
          "Every case runs init..EOS..teardown on the clang ASan+UBSan build (recover mode, one process per case): any ASan report, any UBSan report outside the audited benign list, any error packet, crash or reproducible hang is a violation; reports are keyed by (tool, kind, innermost library function) and matched against the known-findings list, which was filled from campaigns of 120+250(+250) random cases (the encoder has a long tail of latent reports: 26, then 14 more reporting functions).",
@@ -40,7 +40,7 @@ T = {
          "Single-field perturbations of the library defaults over boundaries, one past, 0, -1, type min/max and random values for every field whose range the API header and the user guide state consistently (70 fields), documented cross constraints, and documentation-free metamorphic checks (accepted set is an interval; unrelated fields never flip acceptance). ~1300 set_parameter calls per run.",
          "Fields where header and guide contradict each other or give no range get no verdict (listed in evidence). The predicate is a transcription of the documents, each rule carries its citation."),
  "C14": ("one process per API call sequence on the ASan build with begin/end markers around every call", "3/C14",
-         "Every NULL-handle / NULL-buffer probe of the 20 encoder and 11 decoder entry points in every protocol state where it is meaningful must return an error code; sequences with 1..5 rejected set_parameter calls followed by a valid one must configure, initialise and encode two pictures; random legal sequences must not contain a call that fails to return (other than the documented blocking wait).",
+         "Every NULL-handle / NULL-buffer probe of the 20 encoder and 11 decoder entry points in every protocol state where it is meaningful must return an error code; sequences with 1..5 rejected set_parameter calls followed by a valid one must configure, initialise and encode two pictures; random legal sequences must not contain a call that fails to return (other than the documented blocking wait); bursts of 80/240/600 (thorough: up to 5100) pictures submitted back to back without fetching, then EOS, then drain, must not block in send_picture.",
          "Protocol-illegal orders (e.g. send_picture before init) are outside the statement's three clauses and are not generated. A call that does not return within the watchdog twice is reported as blocking."),
  "C15": ("teardown at every protocol point with thread census, library live-resource counters (hook H8), LeakSanitizer and heap-growth measurement; deadlocks established by observing all threads parked", "3/C15",
          "Encoder and decoder sessions are torn down after init_handle, after a rejected / accepted set_parameter, after init, mid-stream after k sends with j packets fetched (k 0..40), and after a full drain; a configuration-diversity stratum tears down after init (and after a short drained encode) configurations that change what init allocates (128x128 superblocks, presets 0/3/4, 10-bit, 16-bit pipeline, tiles, overlays, film grain, VBR/CVBR, long look-ahead, superres, screen content, hl 0/5); deinit + deinit_handle must return, the thread census must be back to its pre-session value, H8 must count zero live memory blocks / mutexes / semaphores / threads, LSan must be clean and the in-use heap must not grow over 30 repeated sessions. A hang is reported only when every thread is observed parked with no context switches (gdb names the kernel and the queue).",
@@ -55,7 +55,7 @@ T = {
          "Two fill patterns are pushed through init_handle and every field (table generated from the header of the current tree) must be overwritten; encodes on top of zero/0xFF/0xA5/random prior contents must be accepted and byte-identical.", "Padding bytes are not fields. Rate-control modes are left out of (b) because their output is not reproducible (C04 finding)."),
  "C18": ("header parser: base_q_idx of every coded frame vs configured bounds/offsets", "3/C18",
          "base_q_idx of all coded frames (hidden included) from the independent parser; rc 1/2 (1- and 2-pass) within qindex(min..max qp) with contents driving RC to both rails; fixed-qindex-offset coding equals qindex(qp)+offset of the frame class (exact temporal layer inside complete mini-GOPs).",
-         "In constant-QP mode the library substitutes its default bounds (documented: min/max apply to rate control only); the effective bounds are used there."),
+         "In constant-QP mode the library substitutes its default bounds (documented: min/max apply to rate control only); the effective bounds are used there. qp 0 (lossless) is not supported by the encoder: the effective bounds are max(1, configured) in every mode."),
  "C19": ("header parser for frame placement + suffix decodes from every shown key frame in fresh libaom/dav1d", "3/C19",
          "Frame type per display position vs intra period/refresh type over hierarchical levels 0..5, overlays, lengths; every packet with a shown key frame is used as a cut point: the suffix decoded by fresh reference decoders must equal the full decode.", "libaom decides, dav1d is second witness."),
  "C20": ("header parser (frame-level signalling) + decoder block-parser counters (hook H5, validated against libaom) vs the switched-off tool, paired switch-on run; tile info vs spec limits", "3/C20",
